@@ -31,6 +31,10 @@ Verdict ==
   \cup Viol("HEAP_VALUES", \A n \in Names : Within(Ev.val[n], Val(hx, n), Dec(1, 8)))
   \cup Viol("COPY_INDEPENDENT", (Ev.o.t \in {"copy", "new"}) =>
                  \A p \in ObsPairs(Ev) : Ev.o.dst \notin {SubSeq(p, 1, 1), SubSeq(p, 2, 2)})
+  \* the result of an arithmetic operator is a fresh object (ObjHeap!Fresh): if it were one of the operands, a later
+  \* mutator on the result would change the operand ("fresh" is logged by the harness: result is none of the objects that
+  \* existed before the step)
+  \cup Viol("RESULT_FRESH", (Ev.o.t \in {"bin", "num", "rnum", "neg", "abs", "inp", "inpnum"}) => Ev.fresh = 1)
 
 Init == TraceInit(EmptyHeap)
 Next == StepWith(Verdict, IF Ev.k = "reset" THEN EmptyHeap ELSE Observed(Ev))
